@@ -25,10 +25,7 @@ save = FunctionSpec(
     params=dict(self=MP_, rowsWithoutSubsequentAlignmentsForSingleQueryRest=LIST(ROW), fileNumber=INT), returns=NONE, trusted=True, serves=('C08',),
     note="ASSUMED: writes the rows to <output>_<fileNumber>; the verified caller logs (fileNumber, rows) in ghost state")
 
-resolve = FunctionSpec(
-    file='src/alignment/alignment_results.py', qualname='AlignmentResults.resolve', params=dict(rows=LIST(ROW), maxDifference=REAL),
-    returns=TUPLE(LIST(ROW), LIST(ROW)), trusted=True, serves=('C08',),
-    note="ASSUMED here (nested groupby with list mutation); its statement-level clauses are checked by the bounded C08 monitor")
+# AlignmentResults.resolve: contract in specs/result_row.py (verified there; used here through its contract)
 
 
 def _log(L):
@@ -129,4 +126,4 @@ execute = FunctionSpec(
          "same symbolic values in every mode, so main(all)=main(joined), _1(all)=main(separate), _2(all)=_1(separate) follow by congruence",
 )
 
-SPECS = [firstPass, secondPass, save, resolve, execute]
+SPECS = [firstPass, secondPass, save, execute]
